@@ -19,6 +19,11 @@ def digest_results(results):
 def main():
     from sharepoint2text.parsing.router import get_extractor
     man = json.load(open(sys.argv[1]))
+    order = sys.argv[2] if len(sys.argv) > 2 else "fwd"
+    if order == "rev":          # a different order in every worker: a result that depends on what was extracted before shows up as a digest mismatch
+        man = man[::-1]
+    elif order == "rot":
+        man = man[len(man) // 2:] + man[:len(man) // 2]
     out = {}
     for item in man:
         try:
